@@ -8,9 +8,9 @@
              state at the moment of the snapshot;
      prop  = (independent of the state machine) every collect returned `value_of_lineage` of
              the lineage term read off the PROGRAM TEXT alone, all node ids are pairwise
-             distinct, and the shared closure-call counter changed only during the turn in
-             which a collect takes its snapshot and executes (so it is 0 before the first
-             collect and no build step ever runs a user function).
+             distinct, and the shared closure-call counter never changed during a turn of
+             a build call (so it is 0 before the first collect and no build step ever runs a
+             user function).
    Joins iterate HashMaps: rows of a collection whose lineage contains a join are compared as
    multisets, everything else as sequences. *)
 From Coq Require Import List ZArith Bool String Arith.
@@ -422,6 +422,10 @@ Definition is_jl (j : J) : bool := match j with JL _ => true | _ => false end.
 (* ---------- the property instance on the observed results ---------- *)
 Definition result_prop (ps : list (list hcall)) (c : hcall) (o : J) : bool :=
   match c, o with
+  | _, JL [JS "unavailable"%string] => true
+      (* the harness could not issue the call (a referenced handle did not exist yet because
+         the real lock sequence deviated from the model's): a disagreement, reported through
+         `agree`, but no observation about the property *)
   | HCollect _ r, JL [JS tag; out; JI _] =>
       String.eqb tag "c" &&
       match lin_of (S (total_calls ps)) ps r with
@@ -442,16 +446,18 @@ Definition ids_of_result (o : J) : list Z :=
 Fixpoint nodup_z (l : list Z) : bool :=
   match l with [] => true | x :: r => negb (existsb (Z.eqb x) r) && nodup_z r end.
 
-Definition is_snapshot_turn (ps : list (list hcall)) (t ci st : nat) : bool :=
+(* laziness on the observed counter: a turn that belongs to a build call (src / map / filter /
+   join) never changes the closure-call counter; only turns of collect calls may *)
+Definition is_collect_turn (ps : list (list hcall)) (t ci : nat) : bool :=
   match nth_error (nth t ps []) ci with
-  | Some (HCollect _ _) => Nat.eqb st 1
+  | Some (HCollect _ _) => true
   | _ => false
   end.
 Fixpoint counter_ok (ps : list (list hcall)) (prev : Z) (o : list (nat * nat * nat * Z)) : bool :=
   match o with
   | [] => true
   | (t, ci, st, cnt) :: r =>
-      (if is_snapshot_turn ps t ci st then prev <=? cnt else cnt =? prev) && counter_ok ps cnt r
+      (if is_collect_turn ps t ci then prev <=? cnt else cnt =? prev) && counter_ok ps cnt r
   end.
 
 Definition shapes_ok (ps : list (list hcall)) (res : list J) : bool :=
